@@ -180,6 +180,10 @@ pub struct RunSpec {
     /// delivers their answers now, at this run's first suspension, before its own answers
     #[serde(default)]
     pub stale_answer_ids: Vec<u64>,
+    /// every requested module is first answered with a stub source and then, before it has run,
+    /// with the real one (a host that replaces a placeholder): the later supply counts
+    #[serde(default)]
+    pub stub_then_real: bool,
 }
 
 #[derive(Clone, Debug, Default)]
@@ -436,6 +440,9 @@ pub struct Run {
 
 pub const MAX_ROUNDS: u64 = 400;
 
+/// What a host supplies first when it answers an import with a placeholder.
+pub const STUB_MODULE: &str = "console.log(\"stub module ran\"); export const __stub: number = 1;";
+
 /// Bumped at every host action / interpreter step of any run in this process. A watchdog that
 /// wants to know whether ONE step is stuck (and not whether a scenario is long) reads it.
 pub static HEARTBEAT: std::sync::atomic::AtomicU64 = std::sync::atomic::AtomicU64::new(0);
@@ -601,6 +608,9 @@ impl Run {
         for (resolved, _spec) in needed {
             match self.spec.modules.get(&resolved) {
                 Some(src) => {
+                    if self.spec.stub_then_real {
+                        let _ = h.interp.provide_module(ModulePath::new(resolved.clone()), STUB_MODULE);
+                    }
                     match h.interp.provide_module(ModulePath::new(resolved.clone()), src) {
                         Ok(()) => {
                             any = true;
